@@ -1,0 +1,20 @@
+//go:build verif
+
+package bits
+
+// Property C01 (agent c01c): trace effect of the two zero-terminated string readers of FixedSliceReader (definitional, like
+// the C01 clauses of the other Read* methods in verif_contracts.go), plus the functional facts about
+// ReadPossiblyZeroTerminatedString that the URL box decoder relies on (proved of the body).
+
+// ReadZeroTerminatedString: on success the bytes of the result followed by one zero byte have been consumed
+// (what WriteString(s, true) writes).
+//@ func (*FixedSliceReader).ReadZeroTerminatedString
+//@   defines[C01] s.err == nil ==> ghost(s).tr == trApp(trApp(old(ghost(s).tr), chBytes(result)), chU(8, uint64(0)))
+
+// ReadPossiblyZeroTerminatedString: either exactly maxLen bytes without terminator, or the string and its terminator.
+//@ func (*FixedSliceReader).ReadPossiblyZeroTerminatedString
+//@   ensures ok
+//@   ensures s.pos - old(s.pos) == len(str) || s.pos - old(s.pos) == len(str) + 1
+//@   ensures s.pos - old(s.pos) == len(str) ==> len(str) == maxLen
+//@   defines[C01] s.err == nil ==> ghost(s).tr == ite(s.pos - old(s.pos) == len(str), trApp(old(ghost(s).tr), chBytes(str)), trApp(trApp(old(ghost(s).tr), chBytes(str)), chU(8, uint64(0))))
+//@   assigns s.pos, s.err, ghost(s).tr
